@@ -1481,3 +1481,12 @@ Proof.
   destruct (Z.eqb_spec (t_size t) 0); [lia|].
   destruct (Z.leb_spec (t_data t + t_size t) (blen f)); [lia|reflexivity].
 Qed.
+
+(* the hand-written tables of the tarfile model are those of the tarfile module in use *)
+Lemma tarfile_tables :
+  SUPPORTED_TYPES = Gen.VmTar.tarfile_SUPPORTED_TYPES /\ REGULAR_TYPES = Gen.VmTar.tarfile_REGULAR_TYPES /\
+  GNU_TYPES = Gen.VmTar.tarfile_GNU_TYPES /\ [XHDTYPE; XGLTYPE; SOLARIS_XHDTYPE] = Gen.VmTar.tarfile_PAX_TYPES /\
+  BLOCK = Gen.VmTar.tarfile_BLOCKSIZE /\ DIRTYPE = Gen.VmTar.tarfile_DIRTYPE /\ AREGTYPE = Gen.VmTar.tarfile_AREGTYPE /\
+  GNUTYPE_LONGNAME = Gen.VmTar.tarfile_GNUTYPE_LONGNAME /\ GNUTYPE_LONGLINK = Gen.VmTar.tarfile_GNUTYPE_LONGLINK /\
+  GNUTYPE_SPARSE = Gen.VmTar.tarfile_GNUTYPE_SPARSE /\ LNKTYPE = Gen.VmTar.tarfile_LNKTYPE /\ SYMTYPE = Gen.VmTar.tarfile_SYMTYPE.
+Proof. repeat split; reflexivity. Qed.
